@@ -15,12 +15,14 @@ Lemma main_final e st levels :
   (forall k, get (sfs (fst (leveled_update e st levels))) k = get (target_of (sfs st) (concat levels)) k)
   /\ final_ok (sfs (fst (leveled_update e st levels))) (concat levels)
   /\ (forall k, ~ In k (map ukey (concat levels)) ->
-        get (sfs (fst (leveled_update e st levels))) k = get (sfs st) k).
+        get (sfs (fst (leveled_update e st levels))) k = get (sfs st) k)
+  /\ sfs (fst (leveled_update e st levels)) = apply_writes e (snd (leveled_update e st levels)) (sfs st).
 Proof.
-  intros Hh Hc. pose proof (hyps_ok_hyps _ _ _ Hh) as H. split; [|split].
+  intros Hh Hc. pose proof (hyps_ok_hyps _ _ _ Hh) as H. split; [|split; [|split]].
   - apply leveled_final; assumption.
   - apply (leveled_hard e st levels Hh Hc).
   - intros k Hk. rewrite (leveled_final e st levels H Hc). apply target_of_notin. exact Hk.
+  - apply leveled_apply; assumption.
 Qed.
 
 Lemma main_invariant e st levels :
